@@ -105,3 +105,152 @@ def get_mut_cow_rules(ctx):
             else:
                 ctx.must_pass(f, cs_, start=al[0], exits='success', what='the re-pointed root is marked DEFERRED')
     ctx.check(n >= 2, 'floor|get-mut', 'get_mut functions analysed: %d' % n)
+
+
+def verify_cycle_guard_rules(ctx):
+    """C12.R10: checksum verification walks pages named by (possibly damaged) pages.  A page is read
+    only after it was compared against the pages on the current path and then put on that path, so a
+    cycle in a damaged file ends the walk with `false` instead of recursing without bound."""
+    ctx.set_rule('C12.R10', 'the checksum walk refuses a page already on its path (and a path deeper than any valid tree) before reading it')
+    f = ctx.fn('RawBtree::verify_checksum_helper')
+    if f is None:
+        return
+    ct = ctx.sites(f, 'contains', exact=1)
+    pu = ctx.sites(f, 'Vec::push', exact=1)
+    gp = ctx.sites(f, 'PageResolver::get_page', exact=1)
+    rec = ctx.sites(f, 'RawBtree::verify_checksum_helper', exact=1)
+    for p in ct:
+        ctx.flows(f, p, 1, from_arg='page_number', what='the page looked up on the path is the one about to be visited')
+        ctx.flows(f, p, 0, from_arg='visited')
+    for p in pu:
+        ctx.flows(f, p, 1, from_arg='page_number', what='the page put on the path is the one being visited')
+        ctx.flows(f, p, 0, from_arg='visited')
+    ctx.guarded(f, gp + rec, [S.false_of('contains')], 'a page is read / descended into only when it is not on the current path')
+    ctx.order(f, pu, rec, 'the page is on the path before its children are visited')
+    for p in rec:
+        ctx.flows(f, p, 3, from_arg='visited', what='the recursion shares the path')
+    # the depth bound: some comparison of the path length against MAX_BTREE_DEPTH cuts get_page off
+    ln = [c for c in f.calls if c.matches('Vec::len') and not f.blocks[c.bb]['c']]
+    ctx.check(len(ln) >= 1, 'floor|%s|depth-bound' % f.path, 'the path length is read (depth bound)', f, f.line)
+    if ln:
+        ctx.guarded_cmp(f, gp, [Guard(call='Vec::len', cmp=True)], 'a page is read only below the depth bound')
+
+
+def depth_bound_rules(ctx):
+    """C12.R11: the recursive descents over child pointers read from pages carry a depth and refuse
+    to go below MAX_BTREE_DEPTH, and the depth they pass down grows; a damaged file whose pointers
+    form a cycle is reported as corrupted (or unverified) rather than followed without bound."""
+    ctx.set_rule('C12.R11', 'recursive page walks are depth-bounded: the recursion is control-dependent on a test of the depth, and the depth passed down is derived from the current one')
+    n = 0
+    f = ctx.fn('UntypedBtree::visit_pages_helper') or ctx.fn('visit_pages_helper')
+    if f is not None:
+        n += 1
+        rec = [cpoint(c) for c in f.calls if c.callee and c.callee.endswith('visit_pages_helper') and not f.blocks[c.bb]['c']]
+        ctx.check(len(rec) >= 1, 'floor|%s|recursion' % f.path, 'the page walk recurses into children', f, f.line)
+        gp = ctx.sites(f, 'get_page', exact=1)
+        ctx.guarded_cmp(f, gp + rec, [Guard(call='PagePath::depth', cmp=True)], 'a page is visited only below the depth bound')
+        wc = ctx.sites(f, 'PagePath::with_child', exact=1)
+        for p in rec:
+            ctx.flows(f, p, 1, from_call='PagePath::with_child', what='the path handed down is the current path extended by the child')
+        for p in wc:
+            ctx.flows(f, p, 1, from_call='BranchAccessor::child_page', what='the path is extended by the child about to be visited')
+        ct = ctx.sites(f, 'contains', exact=1)
+        for p in ct:
+            ctx.flows(f, p, 1, from_call='BranchAccessor::child_page', what='the child is looked up among its own ancestors')
+            ctx.flows(f, p, 0, from_call='PagePath::parents')
+        ctx.guarded(f, rec, [S.false_of('contains')], 'a child that is one of its own ancestors is not descended into')
+    for pat in ('Btree::first_helper', 'Btree::last_helper'):
+        f = ctx.fn(pat)
+        if f is None:
+            continue
+        n += 1
+        rec = ctx.sites(f, pat, exact=1)
+        ctx.guarded_cmp(f, rec, [Guard(place='depth', cmp=True)], 'the descent continues only below the depth bound')
+        for p in rec:
+            o = p.call.t['a'][2]
+            t = core.sym(f).operand(o) if o[0] != 'k' else None
+            grows = False
+            # depth + 1: an Add (checked or not) whose operand is the parameter
+            for b_ in f.blocks:
+                for st in b_['s']:
+                    if st[0] == 'a' and st[2]['k'] in ('bin', 'cbin') and st[2]['op'] in ('Add', 'AddWithOverflow', 'AddUnchecked'):
+                        ops = st[2]['o']
+                        if any(x[0] != 'k' and core.flows_from_arg(f, x, 'depth') for x in ops) and any(x[0] == 'k' and str(x[2]) == '1' for x in ops):
+                            grows = True
+            ok_ = o[0] != 'k' and core.flows_from_arg(f, o, 'depth') and grows
+            ctx._ob(ok_, ctx.sample('flow', f, p.line, 'the depth passed down is depth + 1'))
+            if not ok_:
+                ctx.violate('flow|%s|depth-grows' % f.path, 'the depth passed to the recursive call must be the current depth plus one', f, p.line)
+    ctx.check(n >= 3, 'floor|depth-bounded-walks', 'depth-bounded recursive walks analysed: %d' % n)
+
+
+def retain_poison_report_rules(ctx):
+    """C05.R13: `retain` learns from the cursor whether a failure left half-applied removals behind,
+    and the table wrapper poisons the transaction on that answer.  The answer is written to the
+    caller's flag on every exit of retain_in_helper, from CursorMut::poisoned, and the flag handed
+    down by retain_in_bounds is the caller's own."""
+    ctx.set_rule('C05.R13', 'a failed retain reports whether the cursor was poisoned to the caller that poisons the transaction')
+    S.store_rule(ctx, 'BtreeMut::retain_in_helper', None, ('call', 'CursorMut::poisoned'), 'the caller\'s flag receives the cursor\'s verdict', deref_name='poisoned', exits='any')
+    f = ctx.fn('BtreeMut::retain_in_helper')
+    if f is not None:
+        sc = ctx.sites(f, 'BtreeMut::retain_scan', exact=1)
+        st = [p for p, _s in S._field_store_points(f, None, 'poisoned')]
+        ctx.order(f, sc, st, 'the verdict is read after the scan (and its best-effort finish) ran')
+    f = ctx.fn('BtreeMut::retain_in_bounds')
+    if f is not None:
+        h = ctx.sites(f, 'BtreeMut::retain_in_helper', exact=1)
+        for p in h:
+            ctx.flows(f, p, 5, from_arg='poisoned', what='the helper writes the caller\'s flag')
+
+
+def split_root_and_drop_rules(ctx):
+    """C10.R14: the two places where the structural edit is a single call that nothing else repeats:
+    a root split builds a branch over *both* halves with the separator between them; the guard
+    returned by an in-place removal performs the removal when it is dropped; a rebuilt branch with
+    one replaced child replaces exactly that child."""
+    ctx.set_rule('C10.R14', 'root split links both halves; the remove-on-drop guard removes its entry; a rebuilt branch replaces the named child')
+    f = ctx.fn(MH + '::insert')
+    if f is not None:
+        bn = ctx.sites(f, 'BranchBuilder::new', exact=1)
+        pc = ctx.sites(f, 'BranchBuilder::push_child', exact=2)
+        pk = ctx.sites(f, 'BranchBuilder::push_key', exact=1)
+        bb_ = [cpoint(c) for c in f.calls if c.matches('BranchBuilder::build') and not f.blocks[c.bb]['c']]
+        ctx.check(len(bb_) == 1, 'floor|%s|branch-build' % f.path, 'one branch page is built for a split root', f, f.line)
+        if bn and bb_:
+            for p in pc + pk:
+                # each of the three pushes separately lies on every path from new to build
+                ctx.order(f, [p], bb_, start=bn[0], what='%s precedes build on every path' % p.desc)
+        srcs = set()
+        for p in pc:
+            a = p.call.t['a'][1]
+            d = core.sym(f).describe(core.sym(f).operand(a)) if a[0] != 'k' else ''
+            srcs.add('sibling' if 'additional_sibling' in d else ('root' if 'new_root' in d else d))
+        ok_ = srcs == {'sibling', 'root'}
+        ctx._ob(ok_, ctx.sample('flow', f, f.line, 'the two children are the insertion\'s new root and its additional sibling'))
+        if not ok_:
+            ctx.violate('flow|%s|both-halves' % f.path, 'the branch built for a split root must name both the new root and the additional sibling (found %s)' % sorted(srcs), f, f.line)
+    f = ctx.fn('<AccessGuard as Drop>::drop') or None
+    if f is not None:
+        rm = ctx.sites(f, 'LeafMutator::remove', exact=1)
+        e_other = core.guard_edges(f, [Guard(place='self.on_drop', vals={'None'}), Guard(place='self.page', vals={'Immutable', 'ArcMemory', 'OwnedMemory'})])
+        ctx.guarded(f, rm, [Guard(place='self.on_drop', vals={'RemoveEntry'})], 'the entry is removed only by a remove-on-drop guard')
+        ctx.must_pass(f, rm, exits='any', extra_cut_edges=e_other, what='a remove-on-drop guard over a writable page removes its entry when dropped')
+        for p in rm:
+            a = p.call.t['a'][1]
+            d = core.sym(f).describe(core.sym(f).operand(a)) if a[0] != 'k' else ''
+            ok_ = 'position' in d
+            ctx._ob(ok_, ctx.sample('flow', f, p.line, 'the entry removed is the recorded position'))
+            if not ok_:
+                ctx.violate('flow|%s|position' % f.path, 'the entry removed on drop must be the guard\'s recorded position (found `%s`)' % d, f, p.line)
+    f = ctx.fn(MH + '::replace_branch_child')
+    if f is not None:
+        bn = ctx.sites(f, 'BranchBuilder::new', exact=1)
+        rc = ctx.sites(f, 'BranchBuilder::replace_child', exact=1)
+        pa = ctx.sites(f, 'BranchBuilder::push_all', exact=1)
+        bb_ = [cpoint(c) for c in f.calls if c.matches('BranchBuilder::build') and not f.blocks[c.bb]['c']]
+        if bn and bb_:
+            ctx.order(f, rc, bb_, start=bn[0], what='the named child is replaced before the rebuilt branch is built')
+            ctx.order(f, pa, rc, start=bn[0], what='the old entries are copied before one of them is replaced')
+        for p in rc:
+            ctx.flows(f, p, 1, from_arg='child_index')
+            ctx.flows(f, p, 2, from_arg='new_child')
